@@ -158,6 +158,11 @@ def a64_bumps():
                          tag="bump"))
         out.append(RD.RI("sub %s, %s, #8" % (reg, reg), {r}, {r}, post_changes={r: ("add", -8)},
                          tag="bump"))
+        if reg == "x2":
+            # flag-setting variants carry the same constant change
+            out.append(RD.RI("adds x2, x2, #8", {r}, {r}, post_changes={r: ("add", 8)}, tag="bump"))
+            out.append(RD.RI("subs x2, x2, #8", {r}, {r}, post_changes={r: ("add", -8)},
+                             tag="bump"))
         out.append(RD.RI("mul %s, %s, x1" % (reg, reg), {r, R(A, "x1")}, {r},
                          post_changes={r: None}, tag="untracked"))
     out.append(RD.RI("mov x6, x2", {R(A, "x2")}, {R(A, "x6")},
